@@ -23,6 +23,7 @@ type TLexer struct {
 	writep   int
 	readp    int
 	lexer    Lexer
+	Depth    int // Depth is for the parser to track the nesting of the rules it is in
 }
 
 // NewTLexer returns a new TLexer.
